@@ -206,6 +206,19 @@ func (s *sim) initialize(i int) {
 			c.StatusConditions().SetTrue(v1.ConditionTypeConsolidatable)
 		}
 	})
+	// an underutilized node runs one small replicated pod that fits anywhere else
+	if s.sc.KindOf[i-1] == "under" {
+		name := fmt.Sprintf("p-%d", i)
+		p := world.Pod(world.PodOpts{Name: name, Node: nodeName(i), CPU: 100, MemMi: 64, Owner: "replicaset", TGPS: -1,
+			Labels: map[string]string{"app": name}})
+		if cur := (&corev1.Pod{ObjectMeta: metav1.ObjectMeta{Name: name, Namespace: "default"}}); !s.w.Get(cur) {
+			s.w.EnvCreate(p)
+			s.w.EnvMutate(cur, "PodRunning", func() {
+				cur.Status.Phase = corev1.PodRunning
+				cur.Status.Conditions = []corev1.PodCondition{{Type: corev1.PodReady, Status: corev1.ConditionTrue}}
+			})
+		}
+	}
 }
 
 // deliver runs the real informer controllers for every object of the scenario (a fully caught-up informer).
@@ -215,6 +228,11 @@ func (s *sim) deliver() {
 		_, _ = s.nodeCtl.Reconcile(s.ctx, reconcile.Request{NamespacedName: types.NamespacedName{Name: nodeName(i)}})
 	}
 	_, _ = s.nodeCtl.Reconcile(s.ctx, reconcile.Request{NamespacedName: types.NamespacedName{Name: strayNode}})
+	for i := 1; i <= len(s.sc.PoolOf); i++ {
+		if s.sc.KindOf[i-1] == "under" {
+			_, _ = s.podCtrl.Reconcile(s.ctx, reconcile.Request{NamespacedName: types.NamespacedName{Namespace: "default", Name: fmt.Sprintf("p-%d", i)}})
+		}
+	}
 }
 
 func (s *sim) now() int { return int(s.w.Clock.Now().Sub(s.anchor) / time.Second) }
@@ -303,6 +321,7 @@ func (s *sim) env(st Step) bool {
 		if !w.EnvRemove(c, "ClaimGone") {
 			return false
 		}
+		w.EnvRemove(&corev1.Pod{ObjectMeta: metav1.ObjectMeta{Name: fmt.Sprintf("p-%d", i), Namespace: "default"}}, "PodGone")
 		delete(s.marked, i)
 	case "Tick":
 		w.Clock.SetTo(s.anchor.Add(time.Duration(st.To) * time.Second))
